@@ -34,7 +34,7 @@ QUERY_TIMEOUT_MS = {"quick": 60000, "thorough": 240000}
 
 def bounds(tier):
     return {"absolute": "as C04 configs (cone 4+2 k symbolic; para 3+3 retract)",
-            "relative cp": "layout 4+2, vary E (+contact_point thorough), 4 passes, k=1/2 (thorough: k symbolic)",
+            "relative cp": "layout 4+2, vary E, 4 passes, k=1/2 (thorough: also k symbolic)",
             "plateau": "layout 12+0 (thorough 12+2; the trend test needs >10 points), num_samples 2 (thorough: 3)",
             "outside": "longer curves; optimiser convergence; Butterworth numerics"}
 
@@ -61,10 +61,6 @@ def tasks(tier):
             {"name": "relcp:cone:4+2:ksym", "fn": "t_relcp",
              "args": {"model_key": "hertz_cone", "layout": "4+2", "kmode": "sym", "vary": ["E"]},
              "witnesses": ["four-passes", "later-pass-too-few-points"], "max_paths": 6000},
-            {"name": "relcp:para:4+2:khalf:v2", "fn": "t_relcp",
-             "args": {"model_key": "hertz_para", "layout": "4+2", "kmode": "half",
-                      "vary": ["E", "contact_point"]},
-             "witnesses": ["four-passes"], "max_paths": 8000},
             {"name": "plateau:cone:12+2:n3", "fn": "t_plateau",
              "args": {"model_key": "hertz_cone", "layout": "12+2", "nsamp": 3, "kmode": "half"},
              "witnesses": ["plateau-done"], "max_paths": 20000},
